@@ -347,6 +347,19 @@ void check_apache(Src &s, Ctx &c) {
     q->addoptions(q, tbl.data());
     q->setuserdata(q, &cnt_remaining);
     if (g.defh) q->setdefhandler(q, cb_maybe_fail);
+    bool reload = s.chance(1, 3);
+    if (reload) {
+        // a configuration reload: the same parser object parses the same path a second time; the
+        // first content is a few comment/blank lines (a valid document without directives)
+        std::string pre; int k = (int)s.range(1, 6); for (int i = 0; i < k; i++) pre += (i & 1) ? "\n" : "# earlier version of this file\n";
+        write_file(path, pre);
+        int n0 = q->parse(q, path.c_str(), (uint8_t)g.flags);
+        if (n0 != 0) c.fail(FUNC, "conf:apache-count", "a file of comments and blank lines returned %d", n0);
+        q->reseterror(q);
+        g_rec.clear();
+        write_file(path, g.doc);
+        c.tag("apache_second_parse_with_same_object");
+    }
     int n = q->parse(q, path.c_str(), (uint8_t)g.flags);
     const char *em = q->errmsg(q);
     std::string emsg = em ? em : "";
